@@ -1135,3 +1135,52 @@ vk_harness!(c01_next_step, {
     vk_cover!(step > 0 && exact <= to as i32, "reach: ascending loop continues");
     core::mem::forget(r);
 });
+
+// ---------------------------------------------------------------------------------------------------------------
+// C18 / C03: a statement that fails leaves the VM at the prompt, with the stack discarded unless the program can be continued
+
+fn failing_statement(entry: usize) {
+    let mut r = Runtime::default();
+    // PRINT -"S" : a string literal, unary minus (TYPE MISMATCH), END
+    load_ops(&mut r, vec![Opcode::Literal(Val::String("S".into())), Opcode::Neg, Opcode::End]);
+    r.state = State::Running;
+    r.pc = 0;
+    r.entry_address = entry; // 0: the statement is direct code; 3: it is inside the stored program
+    r.stack.push(Val::Return(vk::any_u16() as usize)).unwrap(); // a pending GOSUB frame
+    let ev = r.execute(5);
+    vk_check!(matches!(ev, Event::Running), "C03: a failing statement ends the slice without a crash");
+    vk_check!(code_of_state(&r.state) == 3, "C03: every failure is held as a BASIC error");
+    if entry == 0 {
+        vk_check!(r.stack.len() == 0 && code_of_state(&r.cont) == 1, "C18: an error in direct mode discards the stack, nothing can be continued");
+    } else {
+        vk_check!(code_of_state(&r.cont) == 4 && r.cont_pc == 2, "C13: an error inside the program saves the position");
+        vk_check!(r.stack.len() == 1, "C18: the failed statement's own operands are gone, the program's frames are kept");
+    }
+    let ev2 = r.execute(5);
+    vk_check!(first_error_code(&ev2) == Some(ec::TYPE_MISMATCH), "C03: the failure is reported as the BASIC error it is");
+    vk_check!(code_of_state(&r.state) == 1, "C03: after the report the interpreter is stopped at the prompt and accepts the next line");
+    vk_cover!(true, "reach: failing statement");
+    core::mem::forget(r);
+    core::mem::forget(ev);
+    core::mem::forget(ev2);
+}
+
+//@ prop: C18 C03
+//@ tier: quick
+//@ unwind: 12
+//@ verbose: off
+//@ encodes: Runtime::execute (error bookkeeping, error reporting); Runtime::execute_loop (Literal, Neg dispatch); Operation::negate
+//@ bounds: direct statement that fails with TYPE MISMATCH; a pending GOSUB frame (any address) on the stack
+vk_harness!(c18_error_in_direct_mode_clears_the_stack, {
+    failing_statement(0);
+});
+
+//@ prop: C18 C03
+//@ tier: quick
+//@ unwind: 12
+//@ verbose: off
+//@ encodes: Runtime::execute (error bookkeeping, error reporting); Runtime::execute_loop (Literal, Neg dispatch); Operation::negate
+//@ bounds: program statement that fails with TYPE MISMATCH; a pending GOSUB frame (any address) on the stack
+vk_harness!(c18_error_in_program_keeps_frames, {
+    failing_statement(3);
+});
